@@ -6,6 +6,7 @@ import (
 	"os"
 	"path/filepath"
 	"regexp"
+	"slices"
 	"sort"
 	"strconv"
 	"strings"
@@ -16,15 +17,17 @@ var verifDir = "/verif"
 
 // PropSpec is one entry of /verif/properties.map.json.
 type PropSpec struct {
-	Level       string   `json:"level"` // proof | other
-	Functions   []string `json:"functions"`
-	Obligations []string `json:"obligations"` // regexps selecting the obligations that carry the property (default: all of the functions)
-	Exclude     []string `json:"exclude"`
-	Bounded     []string `json:"bounded"`   // names of bounded (executed) checks standing in for unproved obligations
-	Static      []string `json:"static"`    // names of static (evaluation over go/types) checks
-	Replay      string   `json:"replay"`    // name of the replay lifter
-	Explanation string   `json:"explanation"`
-	Assumptions []string `json:"assumptions"`
+	Level          string            `json:"level"` // proof | other
+	Functions      []string          `json:"functions"`
+	Obligations    []string          `json:"obligations"` // regexps selecting the obligations that carry the property (default: all of the functions)
+	Exclude        []string          `json:"exclude"`
+	Bounded        []string          `json:"bounded"`         // names of bounded (executed) checks standing in for unproved obligations
+	Static         []string          `json:"static"`          // names of static (evaluation over go/types) checks
+	MapOrder       []string          `json:"maporder"`        // package paths whose map ranges get an order-independence obligation each
+	MapOrderExempt map[string]string `json:"maporder_exempt"` // site name -> why its obligation is not claimed (reported in the evidence)
+	Replay         string            `json:"replay"`          // name of the replay lifter
+	Explanation    string            `json:"explanation"`
+	Assumptions    []string          `json:"assumptions"`
 }
 
 type KnownFinding struct {
@@ -176,6 +179,38 @@ func cmdCheck(args []string) int {
 		jobs = append(jobs, job{key, vc})
 		funcsDone = append(funcsDone, key)
 	}
+	// order-independence obligations: one per map range found in the listed packages (no annotation involved)
+	var orderNotes []string
+	if prog != nil && len(ps.MapOrder) > 0 {
+		sites := findMapRanges(prog, ps.MapOrder)
+		for _, site := range sites {
+			if why, ex := ps.MapOrderExempt[site.name]; ex {
+				orderNotes = append(orderNotes, site.name+": NOT CLAIMED - "+why)
+				continue
+			}
+			vc, note, err := buildMapOrderVC(prog, site)
+			if err != nil {
+				violations = append(violations, Violation{Obligation: site.name + ".order_independent", Reason: "order independence of this map range cannot be established: " + err.Error(), NoInput: true})
+				continue
+			}
+			if note != "" {
+				orderNotes = append(orderNotes, site.name+": "+note)
+			}
+			jobs = append(jobs, job{site.name, vc})
+			funcsDone = append(funcsDone, site.name)
+		}
+		if len(sites) == 0 {
+			broken = append(broken, "no map range found in "+strings.Join(ps.MapOrder, ", ")+" (the order-independence scan is not looking at the code)")
+		}
+	}
+	purityFiles := 0
+	if prog != nil && len(ps.MapOrder) > 0 {
+		bad, nfiles := purityScan(prog, ps.MapOrder)
+		purityFiles = nfiles
+		for _, b := range bad {
+			violations = append(violations, Violation{Obligation: "purity-scan", Reason: b, NoInput: true})
+		}
+	}
 	// run functions concurrently (each already runs its obligations in parallel)
 	resCh := make(chan []*OblResult, len(jobs))
 	sem := make(chan struct{}, 3)
@@ -217,7 +252,10 @@ func cmdCheck(args []string) int {
 			continue
 		}
 		if kf := matchKnown(known, prop, r); kf != nil {
-			knownSeen = append(knownSeen, fmt.Sprintf("KNOWN-FINDING: property=%s %s [%s] %s", prop, normName(r.Name), kf.Site, kf.What))
+			line := fmt.Sprintf("KNOWN-FINDING: property=%s %s [%s] %s", prop, normName(r.Name), kf.Site, kf.What)
+			if !slices.Contains(knownSeen, line) {
+				knownSeen = append(knownSeen, line)
+			}
 			nObl-- // a known finding is not counted as an obligation of the claim
 			continue
 		}
@@ -289,17 +327,17 @@ func cmdCheck(args []string) int {
 		level = "other"
 	}
 	cov := map[string]any{
-		"obligations":              nObl,
-		"discharged":               nDis,
-		"checker_cmd":              fmt.Sprintf("./check %s %s", prop, tier),
-		"functions_under_contract": funcsDone,
-		"by_backend":               byBackend,
-		"solver_time_s":            round2(solverTime),
+		"obligations":                     nObl,
+		"discharged":                      nDis,
+		"checker_cmd":                     fmt.Sprintf("./check %s %s", prop, tier),
+		"functions_under_contract":        funcsDone,
+		"by_backend":                      byBackend,
+		"solver_time_s":                   round2(solverTime),
 		"answers_reused_from_query_cache": cachedN,
-		"known_findings_seen":      knownSeen,
-		"explanation":              ps.Explanation,
-		"evaluations":              len(results),
-		"rule":                     "one SMT query per generated proof obligation (postcondition label, loop-invariant entry/preservation clause, callee precondition, safety check, frame check) of each function under contract; distinct = distinct normalised obligation names that were discharged; cover queries (must not be unsat) are not counted",
+		"known_findings_seen":             knownSeen,
+		"explanation":                     ps.Explanation,
+		"evaluations":                     len(results),
+		"rule":                            "one SMT query per generated proof obligation (postcondition label, loop-invariant entry/preservation clause, callee precondition, safety check, frame check) of each function under contract; distinct = distinct normalised obligation names that were discharged; cover queries (must not be unsat) are not counted",
 	}
 	distinct := map[string]bool{}
 	var samples []any
@@ -328,6 +366,12 @@ func cmdCheck(args []string) int {
 	}
 	sort.Strings(dl)
 	cov["dropped_by_translation"] = dl
+	if len(orderNotes) > 0 {
+		cov["map_range_notes"] = orderNotes
+	}
+	if purityFiles > 0 {
+		cov["purity_scan_files"] = purityFiles
+	}
 	// callee contracts relied upon at call sites but not verified by this check
 	var assumedC []string
 	for k := range usedContracts {
